@@ -43,6 +43,9 @@ struct World {
     client: StdUdp,
     client_addr: SocketAddr,
     fail_pending: Vec<u64>,
+    /// the PARTIAL ones among `fail_pending` (op `failafter`): (conn id, datagrams of the batch that go out before
+    /// the send fails), oldest first like the live entries of the model's `failAfter`
+    fail_after: Vec<(u64, usize)>,
     /// conn ids whose next socket re-creation fails (op `failbind`), newest first like the model's list
     bind_fail: Vec<u64>,
     /// per conn id: how many more `bind` calls the harness-owned binder of that link refuses
@@ -273,13 +276,15 @@ impl World {
     fn show(&self) -> String {
         let mut keys: Vec<u64> = self.io.keys().copied().collect();
         keys.sort_unstable();
+        let fa: Vec<String> = self.fail_after.iter().map(|(id, k)| format!("{id}:{k}")).collect();
         format!(
-            "sys[last={} ck={} afa={} fail={} fb={} io={}] {} | {}",
+            "sys[last={} ck={} afa={} fail={} fb={} fa={} io={}] {} | {}",
             show_opt(self.last_selected),
             show_bool(self.last_client.is_some()),
             show_opt(self.all_failed_at),
             show_list(&self.fail_pending),
             show_list(&self.bind_fail),
+            show_list(&fa),
             show_list(&keys),
             self.show_reg(),
             self.links.iter().map(show_link).collect::<Vec<_>>().join(" | ")
@@ -293,7 +298,11 @@ impl World {
         for id in &self.fail_pending {
             if let Some(io) = self.io.get(id) {
                 let fd = io.socket.as_raw_fd();
-                verif_fail::fail_next(fd);
+                // a partial failure (op `failafter`): the first k datagrams of the batch go out, then the error
+                match self.fail_after.iter().find(|(i, _)| i == id) {
+                    Some((_, k)) => verif_fail::fail_after(fd, *k),
+                    None => verif_fail::fail_next(fd),
+                }
                 armed.push((*id, fd));
             }
         }
@@ -302,11 +311,15 @@ impl World {
 
     /// An injection stays pending (keyed by conn id) until a `send_all_datagrams` consumed it.
     fn collect_failures(&mut self, armed: &[(u64, i32)]) {
-        let left: Vec<i32> = verif_fail::pending();
+        let mut left: Vec<i32> = verif_fail::pending();
+        left.extend(verif_fail::pending_after().into_iter().map(|(fd, _)| fd));
         self.fail_pending.retain(|id| match armed.iter().find(|(i, _)| i == id) {
             Some((_, fd)) => left.contains(fd),
             None => true,
         });
+        // a consumed partial failure takes its prefix length with it
+        let pending = &self.fail_pending;
+        self.fail_after.retain(|(id, _)| pending.contains(id));
         verif_fail::clear();
     }
 
@@ -774,6 +787,7 @@ impl SysComp {
             client,
             client_addr,
             fail_pending: Vec::new(),
+            fail_after: Vec::new(),
             bind_fail: Vec::new(),
             bind_refusals,
             dead: BTreeMap::new(),
@@ -883,6 +897,8 @@ impl Component for SysComp {
          replies, REG_ERR / REG_NGP mid-stream), uplink-channel backlogs up to 100 datagrams, link silence past the \
          timeout, send-failure injection, failed socket re-creation on reconnect (binder refusals, 1..7 in a row: back-off table up to the 120 s cap), config changes (mode, quality, guard, thresholds, timeout), critical windows, \
          weak / loss-degraded / CC-target stamps, injected window vectors on the boundaries of every window rule. \
+         A third of the injected send failures are partial (`failafter <id> <k>`: the first min(k, batch) datagrams go out, \
+         then the send reports the error), k in {1, 2, 3, size-1, size, size+1, 40} for the batch sizes 4 / 16 / 32. \
          Every case with index 6 mod 8 is a reload case: 5..10 uplink-set reloads (the real apply_connection_changes, \
          harness-tracked link list, addresses 1..9) in a running session - the selected uplink removed with queued \
          datagrams, an uplink removed with packets in flight, reloads in the middle of the REG1 / REG2 handshake, \
@@ -1049,6 +1065,7 @@ impl SysComp {
             Cfg(ConfigSnapshot),
             Crit(u64),
             Fail(u64),
+            FailAfter(u64, usize),
             FailBind(u64),
             SetLink(usize, Vec<(String, String)>),
             Trk(u32, u64),
@@ -1071,6 +1088,7 @@ impl SysComp {
             ["cfg", rest @ ..] => parse_cfg(rest).map(Op::Cfg),
             ["crit", d] => d.parse().ok().map(Op::Crit),
             ["failnext", cid] => cid.parse().ok().map(Op::Fail),
+            ["failafter", cid, k] => cid.parse().ok().zip(k.parse().ok()).map(|(a, b)| Op::FailAfter(a, b)),
             ["failbind", cid] => cid.parse().ok().map(Op::FailBind),
             ["setlink", i, rest @ ..] => i.parse().ok().and_then(|i| {
                 let mut v = Vec::new();
@@ -1103,6 +1121,17 @@ impl SysComp {
                     return "bad-op".into();
                 }
                 w.fail_pending.insert(0, *cid);
+                return format!("wire=[] client=[] err=0 | {}", w.show());
+            }
+            Op::FailAfter(cid, k) => {
+                // the next batch send of that link puts the first min(k, len) datagrams on the wire, THEN fails
+                let w = self.w.as_mut().unwrap();
+                if w.fail_pending.contains(cid) || !w.links.iter().any(|c| c.conn_id == *cid) {
+                    return "bad-op".into();
+                }
+                w.fail_pending.insert(0, *cid);
+                w.fail_after.push((*cid, *k));
+                mon.count("failafter-injected");
                 return format!("wire=[] client=[] err=0 | {}", w.show());
             }
             Op::FailBind(cid) => {
@@ -1171,6 +1200,7 @@ impl SysComp {
         let pre: Vec<Pre> = self.w.as_ref().unwrap().links.iter().map(|c| pre_of(c, now)).collect();
         let pre_ids: Vec<u64> = self.w.as_ref().unwrap().links.iter().map(|c| c.conn_id).collect();
         let pre_fail: Vec<u64> = self.w.as_ref().unwrap().fail_pending.clone();
+        let pre_fail_after: Vec<(u64, usize)> = self.w.as_ref().unwrap().fail_after.clone();
         let pre_bind_fail: Vec<u64> = self.w.as_ref().unwrap().bind_fail.clone();
         let pre_has_connected = self.w.as_ref().unwrap().reg.verif_state().has_connected;
         let pre_client_known = self.w.as_ref().unwrap().last_client.is_some();
@@ -1282,6 +1312,11 @@ impl SysComp {
         verif_clock::set(None);
         let (wire, client) = self.w.as_mut().unwrap().capture();
         let wire: Vec<(u64, Vec<u8>)> = wire.into_iter().map(|(id, d)| (id, self.canon_wire(&seed_probe, &d))).collect();
+        let new_client: Option<&[u8]> = match &parsed {
+            Op::Client(_, data) if !data.is_empty() => Some(data),
+            _ => None,
+        };
+        self.count_partial_sends(&pre, &pre_ids, &pre_fail_after, new_client, &wire, mon);
 
         // ---- monitors
         if let Some(pre_show) = &pre_show_unknown_link {
@@ -1402,6 +1437,31 @@ impl SysComp {
             cc.join(";"),
             ccb.join(",")
         )
+    }
+}
+
+impl SysComp {
+    /// Coverage of the PARTIAL send failures (op `failafter`) this op consumed - counters only; the C01 monitors
+    /// themselves go by what was SEEN on the wire (a prefix datagram is sent, the rest of the batch is lost to a
+    /// failed send). The batch of a consumed failure is the link's queue before the op, plus the new datagram in a
+    /// client op (only the enqueue that fills the batch sends on the threshold path).
+    fn count_partial_sends(&self, pre: &[Pre], pre_ids: &[u64], pre_fail_after: &[(u64, usize)], new_client: Option<&[u8]>, wire: &[(u64, Vec<u8>)], mon: &mut Mon) {
+        let w = self.w.as_ref().unwrap();
+        for (id, k) in pre_fail_after.iter().filter(|e| !w.fail_after.contains(e)) {
+            mon.count("partial-send-consumed");
+            let Some(i) = pre_ids.iter().position(|x| x == id) else { continue };
+            let Some(c) = w.links.get(i).filter(|c| c.conn_id == *id) else { continue };
+            let len = pre[i].queue.len() + usize::from(new_client.is_some());
+            let on_wire = wire.iter().filter(|(wid, d)| wid == id && (pre[i].queue.contains(d) || new_client == Some(d.as_slice()))).count();
+            if on_wire >= 1 && on_wire < len {
+                mon.count("partial-send-prefix-on-wire");
+            }
+            if *k >= len && on_wire == len {
+                // the whole batch is on the wire, yet the send reported a failure
+                let was_reset = !c.connected && c.in_flight_packets == 0 && c.batch_sender.queued_count() == 0;
+                mon.count(if new_client.is_some() && was_reset { "partial-send-k-ge-len" } else { "partial-send-k-ge-len-timer-path" });
+            }
+        }
     }
 }
 
@@ -2664,6 +2724,20 @@ fn client_len_class(rng: &mut Rng) -> usize {
     }
 }
 
+/// A send-failure injection for an uplink that exists: two in three fail before anything is sent (`failnext`), one in
+/// three fails PART-WAY through the batch (`failafter <id> <k>`: the first min(k, len) datagrams go out first), k on
+/// the boundaries of the three batch sizes 4 / 16 / 32 - inside the batch (1, 2, 3, size - 1) and at / past its end
+/// (size, size + 1, 40: the whole batch is on the wire and the send still reports a failure).
+fn send_failure_op(rng: &mut Rng, id: u64) -> String {
+    if rng.chance(1, 3) {
+        let size = *rng.pick(&[4u64, 16, 32]);
+        let k = *rng.pick(&[1, 2, 3, size - 1, size, size + 1, 40]);
+        format!("failafter {id} {k}")
+    } else {
+        format!("failnext {id}")
+    }
+}
+
 /// Random bind-failure injections per link in the data phase of a case (the dedicated scenario
 /// below injects its own 1..3, in some cases 6..7, consecutive failures). Every failed socket
 /// re-creation of an established link doubles its reconnect back-off: 10 s, 20 s, 40 s, 80 s, 120 s.
@@ -3128,7 +3202,7 @@ fn gen_case(rng: &mut Rng, tier: Tier, idx: usize) -> Vec<String> {
             for k in 0..total {
                 if k == fail_at {
                     if let Some(j) = bh_link {
-                        ops.push(format!("failnext {}", j + 1));
+                        ops.push(send_failure_op(rng, j as u64 + 1));
                     }
                 }
                 ops.push(format!("client {now} {}", hexs(&data_packet(seq, false, 24, counter, rng))));
@@ -3414,7 +3488,7 @@ fn gen_case(rng: &mut Rng, tier: Tier, idx: usize) -> Vec<String> {
                 }
             }
             36 => {
-                ops.push(format!("failnext {}", i + 1));
+                ops.push(send_failure_op(rng, i as u64 + 1));
             }
             40 => {
                 // the uplink binder of link i refuses its next socket re-creation
@@ -4100,7 +4174,7 @@ fn gen_reload(rng: &mut Rng, tier: Tier) -> Vec<String> {
                     }
                     if rng.chance(1, 3) {
                         let id = g.links[r].id;
-                        g.ops.push(format!("failnext {id}"));
+                        g.ops.push(send_failure_op(rng, id));
                     }
                     let removed = g.reload(&list, &[]);
                     g.ghosts(rng, &removed);
@@ -4157,7 +4231,7 @@ fn gen_reload(rng: &mut Rng, tier: Tier) -> Vec<String> {
                 let ts = g.now.saturating_sub(rng.range(1, 300));
                 g.uplink(g.now, lid, &create_keepalive_packet(ts));
             }
-            28 => g.ops.push(format!("failnext {lid}")),
+            28 => g.ops.push(send_failure_op(rng, lid)),
             29 => {
                 g.uplink(g.now, lid, &SRTLA_TYPE_REG_ERR.to_be_bytes());
                 if g.links[i].up {
